@@ -469,6 +469,7 @@ def run_driver(requests: list[dict]) -> list[dict]:
         return []
     if not DRIVER.exists():
         raise DriverError(f"driver not built: {DRIVER}")
+    requests = [{k: v for k, v in r.items() if not k.startswith("_")} for r in requests]
     data = "\n".join(json.dumps(r, separators=(",", ":")) for r in requests) + "\n"
     pr = subprocess.run([str(DRIVER)], input=data.encode(), capture_output=True, check=False)
     if pr.returncode != 0:
